@@ -135,8 +135,9 @@ def parse_item_block(lines, start, file, path):
             spec.extra_lits += re.findall(r'"(?:[^"\\]|\\.)*"', b[7:])
         elif b.startswith("keep-derive"):
             spec.keep_derive = b.split()[1:]
-        elif b.startswith("loop "):
+        elif b.startswith("loop ") or b.startswith("loop? "):
             cur_loop = LoopSpec(int(b.split()[1]))
+            cur_loop.optional = b.startswith("loop? ")     # `loop? N`: invariants that go away with the loop (the fn's own clauses still decide)
             spec.loops.append(cur_loop)
             cur_sections = cur_loop.sections
             cur_clause = None
@@ -640,7 +641,10 @@ def weave_fn(w, spec, text, fn_label, item_index, twin):
         if body_open is None:
             raise WeaveError("loop annotation on bodiless fn %s" % fn_label)
         loops = rsitems.loops_in(src, body_open, len(text))
-        for ls in spec.loops:
+        for ls in list(spec.loops):
+            if getattr(ls, "optional", False) and (ls.n < 1 or ls.n > len(loops)):
+                spec.loops.remove(ls)
+                continue
             if ls.n < 1 or ls.n > len(loops):
                 raise WeaveError("%s: loop %d not found (%d loops)" % (fn_label, ls.n, len(loops)))
             kw, p, b = loops[ls.n - 1]
